@@ -44,51 +44,72 @@ FUNS = {"f": (100, lambda x: wrap(x * 2)), "g": (150, lambda x: wrap(x - 3))}
 PREDS = {"p": (200, lambda x: x % 2 == 0), "q": (250, lambda x: x > 1), "b": (400, lambda x: x < 4)}
 
 
-class PyIter:
-    """lazy python iterator mirroring the documented semantics, sharing one log"""
+class Pull:
+    """pull-based iterator mirroring the documented protocol: every pull of a stage pulls its source
+    (also after the end was reached once: an exhausted source is simply asked again)"""
 
-    def __init__(self, log):
-        self.log = log
+    def __init__(self, pull):
+        self.pull = pull           # () -> (True, x) | (False, None)
+
+    def __iter__(self):
+        return self
+
+    def __next__(self):
+        ok, x = self.pull()
+        if not ok:
+            raise StopIteration
+        return x
 
 
 def src_user(xs, log):
-    def gen():
-        i = 0
-        while True:
-            log.append(300 + i)
-            if i < len(xs):
-                i += 1
-                yield xs[i - 1]
-            else:
-                return
-    return gen()
+    state = {"i": 0}
+
+    def pull():
+        log.append(300 + state["i"])
+        if state["i"] < len(xs):
+            state["i"] += 1
+            return True, xs[state["i"] - 1]
+        return False, None
+    return Pull(pull)
 
 
 def src_array(xs, log):
-    return iter(list(xs))
+    state = {"i": 0}
+
+    def pull():
+        if state["i"] < len(xs):
+            state["i"] += 1
+            return True, xs[state["i"] - 1]
+        return False, None
+    return Pull(pull)
 
 
 def stage_py(kind, name, it, log):
     if kind == "map":
         base, fn = FUNS[name]
 
-        def gen():
-            for x in it:
-                log.append(base + x)
-                yield fn(x)
-        return gen()
+        def pull():
+            ok, x = it.pull()
+            if not ok:
+                return False, None
+            log.append(base + x)
+            return True, fn(x)
+        return Pull(pull)
     if kind == "filter":
         base, fn = PREDS[name]
 
-        def gen():
-            for x in it:
+        def pull():
+            while True:
+                ok, x = it.pull()
+                if not ok:
+                    return False, None
                 log.append(base + x)
                 if fn(x):
-                    yield x
-        return gen()
+                    return True, x
+        return Pull(pull)
     if kind == "tfilter":
         # `it ? int` over ints keeps everything (and pulls lazily, like the other stages)
-        return (x for x in it)
+        return Pull(it.pull)
     raise ValueError(kind)
 
 
@@ -282,7 +303,9 @@ def run(rep, tier):
                     twice_progs.append(lines)
     # thin out in the quick tier
     if tier != "thorough":
-        keep = [k for k in range(len(progs)) if k % 3 == 0 or len(progs[k]) < 0]
+        # every third program, with an offset that rotates per block of consumers so that every
+        # consumer (12 per pipeline) is kept for a third of the pipelines
+        keep = [k for k in range(len(progs)) if (k + k // len(consumers)) % 3 == 0]
         progs = [progs[k] for k in keep]
         expect = [expect[k] for k in keep]
         keep = [k for k in range(len(twice_progs)) if k % 2 == 0]
